@@ -262,11 +262,14 @@ func (g *Gen) randBatch(name string, cfg batchCfg) *BatchSpec {
 					if g.chance(0.08) {
 						lhs = []byte{} // the empty left-hand term is a legitimate key
 					}
-					if seen[string(lhs)] {
-						continue
+					if seen[string(lhs)] && !g.chance(0.2) {
+						continue // (mostly) one definition per left-hand term and field; sometimes a second one
 					}
 					seen[string(lhs)] = true
 					nr := 1 + g.r.Intn(3)
+					if g.chance(0.05) {
+						nr = 0 // a left-hand term without synonyms
+					}
 					var rhs [][]byte
 					for q := 0; q < nr; q++ {
 						rhs = append(rhs, synTerms[g.r.Intn(len(synTerms))])
